@@ -71,6 +71,20 @@ EDITS = {
    ("@rename", "offset.go", "func (co *ClipperOffset) offsetOpenPath(", {"group": "grp", "path": "in"})],
  "E40-rename-params-localMaxPoly-InflatePathsD": [("@rename", "clipper_base.go", "func (c *clipperBase) addLocalMaxPoly(", {"ae1": "eA", "ae2": "eB", "pt": "where"}),
    ("@rename", "offset.go", "func InflatePathsD(", {"delta": "dist", "paths": "in"})],
+ # limb helpers rewritten with other correct idioms
+ "E41-multiplyUInt64-via-bits": [("internal_clipper.go", "	x1 := (a & 0xFFFFFFFF) * (b & 0xFFFFFFFF)\n	x2 := (a>>32)*(b&0xFFFFFFFF) + (x1 >> 32)\n	x3 := (a&0xFFFFFFFF)*(b>>32) + (x2 & 0xFFFFFFFF)\n	var result UInt128Struct\n	result.Lo64 = ((x3 & 0xFFFFFFFF) << 32) | (x1 & 0xFFFFFFFF)\n	result.Hi64 = (a>>32)*(b>>32) + (x2 >> 32) + (x3 >> 32)\n	return result",
+   "	hi, lo := bits.Mul64(a, b)\n	return UInt128Struct{Lo64: lo, Hi64: hi}")],
+ "E42-int128-add-compare-carry": [("internal_clipper.go", "	lo, carry := bits.Add64(x.lo, y.lo, 0)\n	hi, _ := bits.Add64(uint64(x.hi), uint64(y.hi), carry)\n	return int128{hi: int64(hi), lo: lo}",
+   "	lo := x.lo + y.lo\n	hi := uint64(x.hi) + uint64(y.hi)\n	if lo < x.lo {\n		hi++\n	}\n	return int128{hi: int64(hi), lo: lo}")],
+ "E43-toFloat64-negate-through-sub": [("internal_clipper.go", "	hi, lo := uint64(x.hi), x.lo\n	neg := x.hi < 0\n	if neg {\n		lo = ^lo + 1\n		hi = ^hi\n		if lo == 0 {\n			hi++\n		}\n	}\n	f := float64(hi)*18446744073709551616.0 + float64(lo)\n	if neg {\n		return -f\n	}\n	return f",
+   "	if x.hi < 0 {\n		n := int128{}.sub(x)\n		return -(float64(uint64(n.hi))*18446744073709551616.0 + float64(n.lo))\n	}\n	return float64(uint64(x.hi))*18446744073709551616.0 + float64(x.lo)")],
+ "E44-mulInt64-sign-magnitude": [("internal_clipper.go", "	hi, lo := bits.Mul64(uint64(a), uint64(b))\n	if a < 0 {\n		hi -= uint64(b)\n	}\n	if b < 0 {\n		hi -= uint64(a)\n	}\n	return int128{hi: int64(hi), lo: lo}",
+   "	ua, ub := uint64(a), uint64(b)\n	if a < 0 {\n		ua = -ua\n	}\n	if b < 0 {\n		ub = -ub\n	}\n	hi, lo := bits.Mul64(ua, ub)\n	if (a < 0) != (b < 0) {\n		lo = ^lo + 1\n		hi = ^hi\n		if lo == 0 {\n			hi++\n		}\n	}\n	return int128{hi: int64(hi), lo: lo}")],
+ "E45-multiplyUInt64-other-carry-order": [("internal_clipper.go", "	x1 := (a & 0xFFFFFFFF) * (b & 0xFFFFFFFF)\n	x2 := (a>>32)*(b&0xFFFFFFFF) + (x1 >> 32)\n	x3 := (a&0xFFFFFFFF)*(b>>32) + (x2 & 0xFFFFFFFF)\n",
+   "	aLo, aHi, bLo, bHi := a&0xFFFFFFFF, a>>32, b&0xFFFFFFFF, b>>32\n	x1 := aLo * bLo\n	x2 := aLo*bHi + (x1 >> 32)\n	x3 := aHi*bLo + (x2 & 0xFFFFFFFF)\n")],
+ "E46-isZero-or-form-and-sub-borrow": [("internal_clipper.go", "	return x.hi == 0 && x.lo == 0", "	if x.lo != 0 {\n		return false\n	}\n	return x.hi == 0"),
+   ("internal_clipper.go", "	lo, borrow := bits.Sub64(x.lo, y.lo, 0)\n	hi, _ := bits.Sub64(uint64(x.hi), uint64(y.hi), borrow)\n	return int128{hi: int64(hi), lo: lo}", "	lo, borrow := bits.Sub64(x.lo, y.lo, 0)\n	hi := uint64(x.hi) - uint64(y.hi) - borrow\n	return int128{hi: int64(hi), lo: lo}")],
+ "E47-productsAreEqual-via-bits": [("internal_clipper.go", "	mulAB := multiplyUInt64(absA, absB)\n	mulCD := multiplyUInt64(absC, absD)\n", "	var mulAB, mulCD UInt128Struct\n	mulAB.Hi64, mulAB.Lo64 = bits.Mul64(absA, absB)\n	mulCD.Hi64, mulCD.Lo64 = bits.Mul64(absC, absD)\n")],
  "E18-comment-and-blank-lines": [("rect_clip.go", "func (r *RectClip64) getNextLocation(path Path64, loc *Location, i *int, highI int) {\n	switch *loc {", "// getNextLocation advances i to the next vertex that leaves the current location.\nfunc (r *RectClip64) getNextLocation(path Path64, loc *Location, i *int, highI int) {\n\n	switch *loc {")],
 }
 def main():
